@@ -266,6 +266,18 @@ def w_align(ctx, rng, i):
                 s = ms.TriMesh(sp_, trilist=np.asarray(gm.trilist).astype(np.uint8))
                 tg = ms.PointCloud(sp_ @ (np.eye(2) + rng.uniform(-0.15, 0.15, (2, 2))).T + rng.uniform(-3, 3, 2) + rng.normal(scale=0.05, size=sp_.shape))
                 opts["compact_trilist"] = True
+            if not compact and rng.random() < 0.15:
+                # the source mesh in integer pixel positions (signed or unsigned, 8 to 32 bits)
+                sdt = [np.int16, np.int32, np.uint16, np.uint8][rng.integers(0, 4)]
+                span_ = float(np.ptp(s.points, axis=0).max())
+                kk_ = (200.0 if sdt is np.uint8 else float(rng.uniform(300, 3000))) / max(span_, 1e-9)
+                pu_ = np.round((s.points - s.points.min(0)) * kk_ + 3)
+                a2_, b2_ = gen.tri_area2(s.points, np.asarray(s.trilist)), gen.tri_area2(pu_, np.asarray(s.trilist))
+                if pu_.max() < np.iinfo(sdt).max and (np.sign(a2_) == np.sign(b2_)).all() and np.abs(b2_).min() > 4.0:
+                    s = ms.TriMesh(pu_.astype(sdt), trilist=np.asarray(s.trilist))
+                    opts["integer_source"] = np.dtype(sdt).name
+                    compact = True          # (kept as the mesh it is: no unit change, no re-triangulation below)
+                    ctx.bump("warps_from_integer_pixel_sources")
             if not compact and rng.random() < 0.2:
                 # the target as integer pixel positions in the compact type an annotation tool stores them in
                 udt = [np.uint16, np.int16, np.uint8][rng.integers(0, 3)]
